@@ -1,5 +1,9 @@
 """C03: regenerate `paeth_predictor` (pdfminer/utils.py), the filter-name tuples
-`LITERALS_*_DECODE` / `LITERAL_CRYPT` and the `_DECODE_ERRORS` class tuple (pdfminer/pdftypes.py) as Lean."""
+`LITERALS_*_DECODE` / `LITERAL_CRYPT` and the `_DECODE_ERRORS` class tuple (pdfminer/pdftypes.py) as Lean;
+round 6: the constants and straight-line arithmetic of lzw.py (`LZWDecoder.__init__`/`feed`: Clear/EOD codes,
+first free table index, code-width schedule), runlength.py (`rldecode`: EOD, literal/repeat tests and counts)
+and of `utils.apply_png_predictor` / `apply_tiff_predictor` (row length, bytes per pixel, supported
+BitsPerComponent, the per-filter-type `raw_x` formulas) as definitions over `Nat`."""
 import ast
 import os
 from . import py2lean as P
@@ -17,8 +21,257 @@ def lit_name(e: ast.expr) -> bytes:
     raise P.Untranslatable("not a LIT(\"...\") call: " + ast.dump(e)[:80])
 
 
+# ---------------------------------------------------------------------------
+# round 6: expressions over non-negative Python ints -> Lean `Nat`
+
+def nat_expr(e: ast.expr) -> str:
+    """Python int expression -> Lean Nat term.  `-` becomes truncated subtraction (every use below is
+    on a branch where the left operand is the larger one); `& (2^k - 1)` becomes `% 2^k`."""
+    if isinstance(e, ast.Constant) and isinstance(e.value, int) and not isinstance(e.value, bool) and e.value >= 0:
+        return str(e.value)
+    if isinstance(e, ast.Name):
+        return e.id
+    if isinstance(e, ast.BinOp):
+        if isinstance(e.op, ast.BitAnd):
+            if (isinstance(e.right, ast.Constant) and isinstance(e.right.value, int) and e.right.value > 0
+                    and (e.right.value & (e.right.value + 1)) == 0):
+                return f"({nat_expr(e.left)} % {e.right.value + 1})"
+            raise P.Untranslatable("& with a non-mask")
+        sym = {ast.Add: "+", ast.Sub: "-", ast.Mult: "*", ast.FloorDiv: "/", ast.Mod: "%"}.get(type(e.op))
+        if sym is None:
+            raise P.Untranslatable("nat binop " + type(e.op).__name__)
+        return f"({nat_expr(e.left)} {sym} {nat_expr(e.right)})"
+    if isinstance(e, ast.Call) and isinstance(e.func, ast.Name) and e.func.id in ("max", "min") \
+            and len(e.args) == 2 and not e.keywords:
+        return f"({e.func.id} {nat_expr(e.args[0])} {nat_expr(e.args[1])})"
+    if isinstance(e, ast.Call) and isinstance(e.func, ast.Name) and e.func.id == "int" and len(e.args) == 1:
+        return nat_expr(e.args[0])
+    raise P.Untranslatable("nat expression " + ast.dump(e)[:80])
+
+
+def nat_cond(e: ast.expr) -> str:
+    if isinstance(e, ast.Compare):
+        parts, left = [], e.left
+        for op, right in zip(e.ops, e.comparators):
+            sym = {ast.Lt: "<", ast.LtE: "≤", ast.Gt: ">", ast.GtE: "≥", ast.Eq: "=", ast.NotEq: "≠"}.get(type(op))
+            if sym is None:
+                raise P.Untranslatable("nat comparison " + type(op).__name__)
+            parts.append(f"decide ({nat_expr(left)} {sym} {nat_expr(right)})")
+            left = right
+        return "(" + " && ".join(parts) + ")"
+    raise P.Untranslatable("nat condition " + ast.dump(e)[:80])
+
+
+def free_names(e: ast.AST):
+    out = []
+    for n in ast.walk(e):
+        if isinstance(n, ast.Name) and n.id not in ("max", "min", "int") and n.id not in out:
+            out.append(n.id)
+    # ast.walk is breadth-first: order by source position instead
+    pos = {}
+    for n in ast.walk(e):
+        if isinstance(n, ast.Name) and n.id in out:
+            pos.setdefault(n.id, (n.lineno, n.col_offset))
+    return sorted(out, key=lambda k: pos[k])
+
+
+def nat_def(name: str, e: ast.expr, params=None, cond=False) -> str:
+    ps = params if params is not None else free_names(e)
+    for n in free_names(e):
+        if n not in ps:
+            raise P.Untranslatable(f"{name}: unexpected variable {n}")
+    sig = " ".join(f"({p} : Nat)" for p in ps)
+    return f"def {name} {sig} : {'Bool' if cond else 'Nat'} := {nat_cond(e) if cond else nat_expr(e)}\n"
+
+
+def is_self_attr(t: ast.expr, attr: str) -> bool:
+    return isinstance(t, ast.Attribute) and isinstance(t.value, ast.Name) and t.value.id == "self" and t.attr == attr
+
+
+def self_const(stmts, attr: str) -> int:
+    """the int constant of the unique statement `self.<attr> = <int>` among `stmts` (not nested)."""
+    found = [s.value.value for s in stmts
+             if isinstance(s, ast.Assign) and len(s.targets) == 1 and is_self_attr(s.targets[0], attr)
+             and isinstance(s.value, ast.Constant) and isinstance(s.value.value, int)]
+    if len(found) != 1:
+        raise P.Untranslatable(f"self.{attr} = <int> not found exactly once")
+    return found[0]
+
+
+def eq_const(test: ast.expr, var: str) -> int:
+    if (isinstance(test, ast.Compare) and isinstance(test.left, ast.Name) and test.left.id == var
+            and len(test.ops) == 1 and isinstance(test.ops[0], ast.Eq)
+            and isinstance(test.comparators[0], ast.Constant) and isinstance(test.comparators[0].value, int)):
+        return test.comparators[0].value
+    raise P.Untranslatable(f"not `{var} == <int>`: " + ast.dump(test)[:80])
+
+
+def gen_lzw(out):
+    mod = P.parse_file("pdfminer/lzw.py")
+    init = P.find_function(mod, "LZWDecoder.__init__")
+    out.append("\n-- lzw.py: LZWDecoder.__init__\n")
+    for attr in ("buff", "bpos", "nbits"):
+        out.append(f"def LZW_INIT_{attr.upper()} : Nat := {self_const(init.body, attr)}\n")
+    feed = P.find_function(mod, "LZWDecoder.feed")
+    ifs = [s for s in feed.body if isinstance(s, ast.If)]
+    if len(ifs) != 1:
+        raise P.Untranslatable("feed: expected one if chain")
+    top = ifs[0]
+    clear = eq_const(top.test, "code")
+    # table = [bytes((c,)) for c in range(N)] followed by k × table.append(None)
+    nlit, nnone = None, 0
+    for s in top.body:
+        if (isinstance(s, ast.Assign) and is_self_attr(s.targets[0], "table") and isinstance(s.value, ast.ListComp)
+                and len(s.value.generators) == 1):
+            it = s.value.generators[0].iter
+            if (isinstance(it, ast.Call) and isinstance(it.func, ast.Name) and it.func.id == "range"
+                    and len(it.args) == 1 and isinstance(it.args[0], ast.Constant)):
+                nlit = it.args[0].value
+        if (isinstance(s, ast.Expr) and isinstance(s.value, ast.Call) and isinstance(s.value.func, ast.Attribute)
+                and s.value.func.attr == "append" and is_self_attr(s.value.func.value, "table")
+                and len(s.value.args) == 1 and isinstance(s.value.args[0], ast.Constant)
+                and s.value.args[0].value is None):
+            nnone += 1
+    if nlit is None:
+        raise P.Untranslatable("feed: initial table comprehension not found")
+    reset = self_const(top.body, "nbits")
+    if len(top.orelse) != 1 or not isinstance(top.orelse[0], ast.If):
+        raise P.Untranslatable("feed: elif code == EOD expected")
+    second = top.orelse[0]
+    eod = eq_const(second.test, "code")
+    if not (len(second.body) == 1 and isinstance(second.body[0], ast.Pass)):
+        raise P.Untranslatable("feed: the EOD branch is no longer `pass`")
+    # the width schedule: if table_length == K: self.nbits = N elif ...
+    sched = []
+    chain = None
+    for n in ast.walk(second):
+        if isinstance(n, ast.If):
+            try:
+                eq_const(n.test, "table_length")
+            except P.Untranslatable:
+                continue
+            chain = n
+            break
+    if chain is None:
+        raise P.Untranslatable("feed: width schedule not found")
+    while True:
+        sched.append((eq_const(chain.test, "table_length"), self_const(chain.body, "nbits")))
+        if len(chain.body) != 1:
+            raise P.Untranslatable("feed: width branch does more than set nbits")
+        if not chain.orelse:
+            break
+        if len(chain.orelse) != 1 or not isinstance(chain.orelse[0], ast.If):
+            raise P.Untranslatable("feed: width schedule has an else branch")
+        chain = chain.orelse[0]
+    out.append("-- lzw.py: LZWDecoder.feed\n")
+    out.append(f"def LZW_CLEAR : Nat := {clear}\n")
+    out.append(f"def LZW_EOD : Nat := {eod}\n")
+    out.append(f"def LZW_LITERALS : Nat := {nlit}\n")
+    out.append(f"def LZW_FIRST_FREE : Nat := {nlit + nnone}\n")
+    out.append(f"def LZW_NBITS_RESET : Nat := {reset}\n")
+    body = "".join(f"if tableLength == {k} then {n} else " for k, n in sched) + "nbits"
+    out.append(f"def nbitsAfter (nbits tableLength : Nat) : Nat :=\n  {body}\n")
+
+
+def gen_rl(out):
+    mod = P.parse_file("pdfminer/runlength.py")
+    fn = P.find_function(mod, "rldecode")
+    loops = [s for s in fn.body if isinstance(s, ast.While)]
+    if len(loops) != 1:
+        raise P.Untranslatable("rldecode: one while loop expected")
+    body = loops[0].body
+    if len(body) != 4:
+        raise P.Untranslatable("rldecode: loop body changed shape")
+    a, b, c, d = body
+    # length = next(data_iter, EOD)
+    if not (isinstance(a, ast.Assign) and isinstance(a.value, ast.Call) and isinstance(a.value.func, ast.Name)
+            and a.value.func.id == "next" and len(a.value.args) == 2 and isinstance(a.value.args[1], ast.Constant)):
+        raise P.Untranslatable("rldecode: length = next(data_iter, <int>) expected")
+    out.append("\n-- runlength.py: rldecode\n")
+    out.append(f"def RL_EOF_DEFAULT : Nat := {a.value.args[1].value}\n")
+    if not (isinstance(b, ast.If) and len(b.body) == 1 and isinstance(b.body[0], ast.Break) and not b.orelse):
+        raise P.Untranslatable("rldecode: if length == EOD: break expected")
+    out.append(f"def RL_EOD : Nat := {eq_const(b.test, 'length')}\n")
+    if not (isinstance(c, ast.If) and not c.orelse and isinstance(d, ast.If) and not d.orelse):
+        raise P.Untranslatable("rldecode: two plain ifs expected")
+    out.append(nat_def("rlIsLiteral", c.test, ["length"], cond=True))
+    rng = [n for n in ast.walk(c) if isinstance(n, ast.Call) and isinstance(n.func, ast.Name) and n.func.id == "range"]
+    if len(rng) != 1 or len(rng[0].args) != 1:
+        raise P.Untranslatable("rldecode: range(length + 1) expected")
+    out.append(nat_def("rlLiteralCount", rng[0].args[0], ["length"]))
+    out.append(nat_def("rlIsRepeat", d.test, ["length"], cond=True))
+    mul = [n for n in ast.walk(d) if isinstance(n, ast.BinOp) and isinstance(n.op, ast.Mult)
+           and isinstance(n.left, ast.List)]
+    if len(mul) != 1:
+        raise P.Untranslatable("rldecode: [next(data_iter)] * (N - length) expected")
+    out.append(nat_def("rlRepeatCount", mul[0].right, ["length"]))
+
+
+def find_local_assign(fn: ast.FunctionDef, name: str) -> ast.expr:
+    found = [s.value for s in ast.walk(fn) if isinstance(s, ast.Assign) and len(s.targets) == 1
+             and isinstance(s.targets[0], ast.Name) and s.targets[0].id == name]
+    if len(found) != 1:
+        raise P.Untranslatable(f"{fn.name}: `{name} = …` not found exactly once")
+    return found[0]
+
+
+def gen_pred(out, mod):
+    png = P.find_function(mod, "apply_png_predictor")
+    out.append("\n-- utils.py: apply_png_predictor\n")
+    first = [s for s in png.body if isinstance(s, ast.If)][0]
+    t = first.test
+    if not (isinstance(t, ast.Compare) and isinstance(t.ops[0], ast.NotIn) and isinstance(t.comparators[0], ast.List)
+            and any(isinstance(s, ast.Raise) for s in first.body)):
+        raise P.Untranslatable("apply_png_predictor: `if bitspercomponent not in [...]: raise` expected")
+    out.append("def PNG_BPC : List Nat := [" + ", ".join(str(P.literal(x)) for x in t.comparators[0].elts) + "]\n")
+    out.append(nat_def("pngNbytes", find_local_assign(png, "nbytes"), ["colors", "columns", "bitspercomponent"]))
+    out.append(nat_def("pngBpp", find_local_assign(png, "bpp"), ["colors", "bitspercomponent"]))
+    loops = [s for s in png.body if isinstance(s, ast.For)]
+    if len(loops) != 1:
+        raise P.Untranslatable("apply_png_predictor: one row loop expected")
+    chain = [s for s in loops[0].body if isinstance(s, ast.If)]
+    if not chain:
+        raise P.Untranslatable("apply_png_predictor: filter type chain not found")
+    node, types = chain[0], []
+    while True:
+        ft = eq_const(node.test, "filter_type")
+        types.append(ft)
+        raws = [s.value for s in ast.walk(ast.Module(body=node.body, type_ignores=[]))
+                if isinstance(s, ast.Assign) and isinstance(s.targets[0], ast.Name) and s.targets[0].id == "raw_x"]
+        if ft == 0:
+            if raws:
+                raise P.Untranslatable("filter type 0 computes raw_x")
+        else:
+            if len(raws) != 1:
+                raise P.Untranslatable(f"filter type {ft}: one raw_x formula expected")
+            out.append(nat_def(f"pngRaw{ft}", raws[0]))
+        if len(node.orelse) == 1 and isinstance(node.orelse[0], ast.If):
+            node = node.orelse[0]
+        else:
+            break
+    out.append("def PNG_FILTER_TYPES : List Nat := [" + ", ".join(map(str, types)) + "]\n")
+    tiff = P.find_function(mod, "apply_tiff_predictor")
+    out.append("\n-- utils.py: apply_tiff_predictor\n")
+    first = [s for s in tiff.body if isinstance(s, ast.If)][0]
+    t = first.test
+    if not (isinstance(t, ast.Compare) and isinstance(t.ops[0], ast.NotEq) and isinstance(t.comparators[0], ast.Constant)):
+        raise P.Untranslatable("apply_tiff_predictor: `if bitspercomponent != N` expected")
+    out.append(f"def TIFF_BPC : Nat := {t.comparators[0].value}\n")
+    out.append(nat_def("tiffBpp", find_local_assign(tiff, "bpp"), ["colors", "bitspercomponent"]))
+    out.append(nat_def("tiffNbytes", find_local_assign(tiff, "nbytes"), ["columns", "bpp"]))
+    inner = [n for n in ast.walk(tiff) if isinstance(n, ast.If) and n is not first]
+    if len(inner) != 1:
+        raise P.Untranslatable("apply_tiff_predictor: one inner if expected")
+    out.append(nat_def("tiffHasLeft", inner[0].test, ["i", "bpp"], cond=True))
+    mods = [s for s in inner[0].body if isinstance(s, ast.AugAssign) and isinstance(s.op, ast.Mod)
+            and isinstance(s.value, ast.Constant)]
+    if len(mods) != 1:
+        raise P.Untranslatable("apply_tiff_predictor: `new_value %= N` expected")
+    out.append(f"def TIFF_MOD : Nat := {mods[0].value.value}\n")
+
+
 def generate(lean_dir: str):
-    out = [P.HEADER.format(src="pdfminer/utils.py, pdfminer/pdftypes.py", ns="Filters")]
+    out = [P.HEADER.format(src="pdfminer/utils.py, pdfminer/pdftypes.py, pdfminer/lzw.py, pdfminer/runlength.py", ns="Filters")]
     mod = P.parse_file("pdfminer/utils.py")
     fn = P.find_function(mod, "paeth_predictor")
     tr = P.FuncTranslator({}, default_kind="int")
@@ -45,6 +298,9 @@ def generate(lean_dir: str):
             raise P.Untranslatable("_DECODE_ERRORS element: " + ast.dump(x)[:60])
     out.append("def DECODE_ERRORS : List String := [" + ", ".join(P.lean_string(c) for c in classes) + "]\n")
     out.append("def LITERAL_CRYPT : Bytes := " + P.lean_bytes(lit_name(P.find_assign(tmod, "LITERAL_CRYPT"))) + "\n")
+    gen_lzw(out)
+    gen_rl(out)
+    gen_pred(out, mod)
     out.append("\nend PdfVerif.Gen.Filters\n")
     path = os.path.join(lean_dir, "PdfVerif", "Gen", "Filters.lean")
     P.write_if_changed(path, "".join(out))
